@@ -12,7 +12,7 @@ import gen
 import impl
 
 RULE = ("fixed families at scale: reflection-free cascade of N two-ports with exact unit-modulus rational phases "
-        "(closed form: product), cascade of N weakly reflecting lossy two-ports (reference: dense numpy network solve), "
+        "(closed form: product), cascade of N reflection-free attenuators with 300-600 dB of total loss (closed form, error relative to the tiny transmission), cascade of N weakly reflecting lossy two-ports (reference: dense numpy network solve), "
         "n x n mesh of beam splitters and phase shifters (unitarity + dense reference), lossy resonant chain of "
         "mirror-waveguide cells, d-level nest of a two-port, the lossy cascade cut into three large sub-solvers, a chain of phase shifters each with its own parameter name, meshes of directly connected couplers (10 and 13 modes; thorough up to 24); sizes quick 500 / 300 / 10x10 / 100 / 40 / 600 / 150, thorough "
         "2000 / 1000 / 20x20 / 400 / 60 / 3000 / 1000; distinct = family x size; all non-trivial")
@@ -95,6 +95,23 @@ def family_lossy_cascade(ctx, n, rng):
     R = dense_reference(comps, links, [(0, "a"), (n - 1, "b")])
     T = impl.solved_matrix(build_chain(mats).solve(), ["IN", "OUT"])[0]
     return rel_err(T, R)
+
+
+def family_attenuating(ctx, n, rng):
+    """reflection-free attenuators whose losses add up to 300-600 dB: the transmission is far below the round-off of a number of
+    order one but perfectly representable; accuracy is *relative* to it (an absolute clean-up threshold would zero it)"""
+    r = np.random.default_rng(rng.randrange(2 ** 32))
+    total_db = r.uniform(300.0, 600.0)
+    w = r.uniform(0.5, 1.5, n)
+    loss_db = total_db * w / w.sum()
+    ts = 10.0 ** (-loss_db / 20.0) * np.exp(1j * r.uniform(0, 2 * np.pi, n))
+    mats = [[[0, t], [t, 0]] for t in ts]
+    # exact product: moduli through the sum of the logarithms, phases through the sum of the angles (both well conditioned)
+    exact = 10.0 ** (-loss_db.sum() / 20.0) * np.exp(1j * np.angle(ts).sum())
+    T = impl.solved_matrix(build_chain(mats).solve(), ["IN", "OUT"])[0]
+    rel = max(abs(T[0, 1] - exact), abs(T[1, 0] - exact)) / abs(exact)
+    refl = max(abs(T[0, 0]), abs(T[1, 1]))
+    return float(max(rel, refl))
 
 
 def family_weak_reflection(ctx, n, rng):
@@ -279,6 +296,7 @@ def run(ctx):
     rng = ctx.subrng("c20")
     q = ctx.tier == "quick" and ctx.scale == 1
     plan = [("cascade", family_cascade, 500 if q else 2000), ("lossy-cascade", family_lossy_cascade, 300 if q else 1000),
+            ("attenuating-cascade", family_attenuating, 400 if q else 2000),
             ("weak-reflection-cascade", family_weak_reflection, 400 if q else 2000),
             ("mesh", family_mesh, 10 if q else 20), ("resonant-chain", family_resonant, 100 if q else 400),
             ("nest", family_nest, 40 if q else 60), ("blocked-cascade", family_blocked, 600 if q else 3000),
